@@ -4,6 +4,7 @@ accepted patterns.
 Correspondence: yalafi.shell.checks.create_single_letter_matches /
 create_equation_punct_messages / create_context  vs  coq/model/Checks.v.
 Oracle: a reference written from the property text (no `re`)."""
+import re
 import itertools, random
 import core
 from yalafi.shell import checks
@@ -397,7 +398,14 @@ Often \foreignlanguage{german}{so} Then z holds, cf. S.~5 or e.\,g. t.
 The \foreignlanguage{german}{Hund}, Also more.
 \begin{equation} c = d. \end{equation}
 and $u$ The end w
+\begin{otherlanguage}{german}
+Hier steht ein langer deutscher Satz mit k darin und $v$ Dann noch
+\[ e = f \]
+Mehr Text folgt hier q
+\end{otherlanguage}
+Back to English with j here and $r$ Final words p
 """
+MATHS = re.compile(r'\$[^$]*\$|\\\[.*?\\\]|\\begin\{equation\}.*?\\end\{equation\}', re.S)
 
 
 def shell_stream(res, tier):
@@ -438,9 +446,27 @@ def shell_stream(res, tier):
                                  % (r.rc, r.err[-300:])))
             continue
         got = []
+        place = None
+        spans = [(x.start(), x.end()) for x in MATHS.finditer(SHELL_DOC)]
         for m in _json.loads(r.out.decode('utf-8'))['matches']:
             c = m['context']
             got.append((m['rule']['id'], c['text'], c['offset'], c['length']))
+            # offset and length of the report select the offending characters
+            # in the LaTeX file
+            o, l = m['offset'], m['length']
+            marked = c['text'][c['offset']:c['offset'] + c['length']]
+            if m['rule']['id'] == 'PRIVATE::SINGLE_LETTER':
+                # (a letter of a placeholder is reported at its formula or insertion)
+                ins = [(x.start(), x.end()) for x in
+                       re.finditer(r'\\foreignlanguage\{german\}\{[^}]*\}', SHELL_DOC)]
+                if SHELL_DOC[o:o + l] != marked and not any(a <= o < b for a, b in spans + ins):
+                    place = ('single-letter message for %r is reported at offset %d length %d '
+                             'of the LaTeX file, which holds %r' % (marked, o, l, SHELL_DOC[o:o + l]))
+            elif not any(a <= o < b for a, b in spans):
+                place = ('equation message for %r is reported at offset %d of the LaTeX '
+                         'file, outside every formula (%r)' % (marked, o, SHELL_DOC[o:o + 10]))
+        if place:
+            res.failures.append((key + ':place', case, place))
         d, i, ch = ph[l2]
         want = []
         for call in r.calls:
